@@ -465,11 +465,13 @@ func c04Run(c *Case) {
 func init() {
 	register(&Prop{
 		ID: "C04", Level: "exploration",
-		Rule: "sampled documents written as JSON TEXT by a hostile generator (empty arrays/objects at every depth, nesting to 200, every escape, \\u0000, surrogate pairs, lone surrogates, non-ASCII, invalid UTF-8, keys that are method names or duplicated, numbers of every class: -0, subnormals, 2^53+-1, 1e308, 5e-324, 50-digit integers, long fractions, random bit patterns) x 13 programs that do not modify the document (empty program, empty rule, read-only patterns, copies, for-in, -r $ / $.a / $[0]): the -o JSON must be valid UTF-8 JSON and decode to a value equal (float64 bits, strings after the decoder's own UTF-8 repair, key sets) to the input as read, resp. to the selected sub-document; a sample goes through the binary's -o FILE; thorough adds `jq -cS .` on input and output as a second opinion. Constructed values (auto-created containers, shared structures) printed with json() must parse back to the reference model's value. Enumerated: the 22-shape cyclic/shared table through json(), -o in the library and -o - in the binary (cycles: error, nothing written; shared-acyclic: written in full), and 8 inexpressible values (functions, natives, +-Inf, NaN, nested). Non-trivial = document with an escape, a non-integer number or >= 2 containers; distinct by document+program.",
+		Rule:          "sampled documents written as JSON TEXT by a hostile generator (empty arrays/objects at every depth, nesting to 200, every escape, \\u0000, surrogate pairs, lone surrogates, non-ASCII, invalid UTF-8, keys that are method names or duplicated, numbers of every class: -0, subnormals, 2^53+-1, 1e308, 5e-324, 50-digit integers, long fractions, random bit patterns) x 13 programs that do not modify the document (empty program, empty rule, read-only patterns, copies, for-in, -r $ / $.a / $[0]): the -o JSON must be valid UTF-8 JSON and decode to a value equal (float64 bits, strings after the decoder's own UTF-8 repair, key sets) to the input as read, resp. to the selected sub-document; a sample goes through the binary's -o FILE; thorough adds `jq -cS .` on input and output as a second opinion. Constructed values (auto-created containers, shared structures) printed with json() must parse back to the reference model's value. Enumerated: the 22-shape cyclic/shared table through json(), -o in the library and -o - in the binary (cycles: error, nothing written; shared-acyclic: written in full), and 8 inexpressible values (functions, natives, +-Inf, NaN, nested). Non-trivial = document with an escape, a non-integer number or >= 2 containers; distinct by document+program.",
 		NumCases:      c04Cases,
 		Run:           c04Run,
 		MinConclusive: func(tier string) int { return 10000 },
-		Exhaustive:    func(tier string) string { return "cyclic/shared shape table x {json(), -o library, -o binary}; inexpressible value list" },
-		Assumptions:   []string{"'the input as read' is what encoding/json decodes (nearest double, invalid UTF-8 and lone surrogates replaced by U+FFFD, last duplicate key wins)", "cycles through arrays whose length changed after being shared are K-ALIAS territory (C09) and not generated"},
+		Exhaustive: func(tier string) string {
+			return "cyclic/shared shape table x {json(), -o library, -o binary}; inexpressible value list"
+		},
+		Assumptions: []string{"'the input as read' is what encoding/json decodes (nearest double, invalid UTF-8 and lone surrogates replaced by U+FFFD, last duplicate key wins)", "cycles through arrays whose length changed after being shared are K-ALIAS territory (C09) and not generated"},
 	})
 }
